@@ -49,6 +49,7 @@ CONSTANTS NH,      \* handles
           MaxSub,  \* largest nested element count explored
           MaxArg,  \* largest position argument offered
           Kinds,   \* container kinds explored
+          Solo,    \* objects that refuse further references (addref answers 0): one owner at a time
           Fails,   \* injected allocation failures offered: f = k makes the k-th allocation of the call fail (0: none)
           FailOut, \* TRUE: the failed outcome of such a call is a transition of its own (model checking, traces);
                    \* FALSE: only the regular outcome, the failed one is carried as exp.alt (behaviour export)
@@ -96,6 +97,13 @@ SortedFrom(s, o) == IF o > NO THEN <<>> ELSE [i \in 1..Holds(s, o) |-> o] \o Sor
 Tokens(s) == SortedFrom(s, 1)
 
 Unique == kind \in {"ref", "item", "group"}
+\* A non-shareable object (the library's small text metatypes, string iterators; the harness scripts it) has one
+\* owner: the harness hands its only reference over (possible while nobody holds the object) and a copy of an element
+\* that holds it cannot share it -- the copy holds none.  Its counter reads the references held by elements (0 or 1).
+SoloIn(k, o) == o \in Solo /\ k \in {"ref", "item", "group", "cfg"}
+IsSolo(o) == SoloIn(kind, o)
+Free(o) == IF o = 0 THEN TRUE ELSE IF IsSolo(o) THEN cnt[o] = 0 ELSE TRUE
+CopyObj(o) == IF IsSolo(o) THEN 0 ELSE o
 Null == [data |-> <<>>, nc |-> FALSE, typ |-> "none"]
 NewRec(d, nc) == [data |-> d, nc |-> nc, typ |-> "elem"]
 IsNull(h) == rec[h].typ = "none"
@@ -103,9 +111,9 @@ Used(h)   == Len(rec[h].data)
 Shared(h) == Cardinality(share[h]) > 1
 
 \* copy construction of an element (traits init with a source)
-CopyOf(s) == CASE kind = "cfg"   -> Leaf(s.n, s.o)       \* name and value; nested elements are not copied
+CopyOf(s) == CASE kind = "cfg"   -> Leaf(s.n, CopyObj(s.o))   \* name and (shareable) value; nested elements are not copied
                [] kind = "cmd"   -> Nil                  \* a command cannot be copied: default element instead
-               [] OTHER          -> Leaf(s.n, s.o)
+               [] OTHER          -> Leaf(s.n, CopyObj(s.o))
 Copies(d) == [i \in 1..Len(d) |-> CopyOf(d[i])]
 
 Account(cre, fin) == cnt' = [o \in O |-> cnt[o] + Holds(cre, o) - Holds(fin, o)]
@@ -148,13 +156,13 @@ Answer(a, arg, ret, out, fin) ==
   obs' = [a |-> a, arg |-> arg,
           exp |-> [ret |-> ret, out |-> out,
                    vals |-> [g \in H |-> Enc(kind', val'[g])],
-                   refs |-> [o \in O |-> 1 + cnt'[o]],
+                   refs |-> [o \in O |-> IF SoloIn(kind', o) THEN cnt'[o] ELSE 1 + cnt'[o]],
                    fin |-> IF kind' = "cmd" THEN Tokens(fin) ELSE <<>>,
                    under |-> 0,
                    leak |-> IF a = "final" THEN 0 ELSE -1,
                    \* a call with an injected allocation failure may also fail: then everything reads as before
                    alt |-> IF "f" \in DOMAIN arg /\ arg.f > 0
-                           THEN [vals |-> [g \in H |-> Enc(kind, val[g])], refs |-> [o \in O |-> 1 + cnt[o]]]
+                           THEN [vals |-> [g \in H |-> Enc(kind, val[g])], refs |-> [o \in O |-> IF IsSolo(o) THEN cnt[o] ELSE 1 + cnt[o]]]
                            ELSE <<>>],
           mdl |-> [refs |-> [g \in H |-> Cardinality(share'[g])],
                    null |-> [g \in H |-> rec'[g].typ = "none"],
@@ -195,13 +203,13 @@ UInsert(a, arg, h, pos0, s, out) ==
 
 \* reference_array::insert(pos, ref): the reference handed in is taken over
 RInsert(h, pos, o, f) ==
-  /\ kind = "ref"
+  /\ kind = "ref" /\ Free(o)
   /\ UInsert("rinsert", [h |-> h, pos |-> pos, o |-> o, f |-> f], h, pos, Leaf(0, o), AnyOut)
 
 \* reference_array::set(pos, ref): the old reference is released
 RSet(h, pos0, o) ==
   LET arg == [h |-> h, pos |-> pos0, o |-> o] pos == Rel(pos0, Used(h)) IN
-  /\ kind = "ref"
+  /\ kind = "ref" /\ Free(o)
   /\ IF pos < 0 \/ pos >= Used(h) \/ Shared(h) THEN Refuse("rset", arg)
      ELSE LET d == Det(h) old == d.data[pos + 1] IN
           Commit("rset", arg, h, d, Put(d.data, pos + 1, Leaf(old.n, o)), TRUE, <<Leaf(0, o)>>, <<Leaf(0, old.o)>>, "ok", AnyOut)
@@ -232,7 +240,7 @@ XCount(h) ==
 
 \* item_array::append(obj, name): the reference handed in is taken over
 IAppend(h, o, n, f) ==
-  /\ kind = "item"
+  /\ kind = "item" /\ Free(o)
   /\ UInsert("iappend", [h |-> h, o |-> o, n |-> n, f |-> f], h, Used(h), Leaf(n, o), AnyOut)
 
 \* unique_array<item<T>>::insert(pos): default element
@@ -245,15 +253,16 @@ IInsert(h, pos, f) ==
 \* names that need no storage are offered)
 ISet(h, pos0, o, n, f) ==
   LET arg == [h |-> h, pos |-> pos0, o |-> o, n |-> n, f |-> f] pos == Rel(pos0, Used(h)) d == Det(h) IN
-  /\ kind = "item" /\ (f > 0 => ~HeapName(n))
+  /\ kind = "item" /\ (f > 0 => ~HeapName(n)) /\ Free(o)
   /\ \/ IF pos < 0 \/ pos >= Used(h) \/ ~d.ok THEN Refuse("iset", arg)
-        ELSE Commit("iset", arg, h, d, Put(d.data, pos + 1, Leaf(n, o)), TRUE, <<Leaf(n, o)>>, <<d.data[pos + 1]>>, "ok", AnyOut)
+        ELSE Commit("iset", arg, h, d, Put(d.data, pos + 1, Leaf(n, CopyObj(o))), TRUE, <<Leaf(n, CopyObj(o))>>, <<d.data[pos + 1]>>,
+                    "ok", AnyOut)
      \/ Failed("iset", arg, h)
 
 \* the caller changes the instance of an element it owns exclusively (as item_group::clear does)
 IElem(h, pos, o) ==
   LET arg == [h |-> h, pos |-> pos, o |-> o] IN
-  /\ kind = "item" /\ ~Shared(h) /\ pos < Used(h)
+  /\ kind = "item" /\ ~Shared(h) /\ pos < Used(h) /\ Free(o)
   /\ LET old == rec[h].data[pos + 1] IN
      Commit("ielem", arg, h, Det(h), Put(rec[h].data, pos + 1, Leaf(old.n, o)), TRUE, <<Leaf(0, o)>>, <<Leaf(0, old.o)>>, "ok", AnyOut)
 
@@ -294,8 +303,9 @@ CountLive(s) == Len(Live(s))
 
 GAppend(a, h, o, n, f) ==
   LET arg == [h |-> h, o |-> o, n |-> n, f |-> f] d == Det(h) IN
-  /\ kind = "group" /\ o # 0 /\ (f > 0 => ~HeapName(n))
-  /\ \/ IF ~d.ok THEN Frame /\ Answer(a, arg, IF a = "gadd" THEN "any" ELSE "refused", AnyOut, <<>>)
+  /\ kind = "group" /\ o # 0 /\ (f > 0 => ~HeapName(n)) /\ Free(o)
+  /\ \/ IF ~d.ok \/ (a = "gadd" /\ IsSolo(o))      \* add_items cannot take a share of the node's object: nothing is added
+        THEN Frame /\ Answer(a, arg, IF a = "gadd" THEN "any" ELSE "refused", AnyOut, <<>>)
         ELSE Commit(a, arg, h, d, d.data \o <<Leaf(n, o)>>, TRUE, <<Leaf(n, o)>>, <<>>,
                     IF a = "gadd" THEN "any" ELSE "ok", IF a = "gadd" THEN AnyOut ELSE CountLive(d.data) + 1)
      \/ /\ FailOut /\ f > 0     \* add_items goes on after a failed append and answers true
@@ -343,7 +353,7 @@ CfgSet(h, p, q, o) ==
       nd == Put(top.data, top.idx, npar)
       lookup == o = 0 /\ ~d.fresh /\ nd = d.data
   IN
-  /\ kind = "cfg"
+  /\ kind = "cfg" /\ Free(o)
   /\ IF ~d.ok THEN LET i == Find(rec[h].data, p)
                         there == i # 0 /\ (q = 0 \/ Find(rec[h].data[i].sub, q) # 0) IN
                     \* a pure lookup through a shared table may be answered or refused
@@ -470,8 +480,8 @@ Init ==
   /\ kind \in Kinds
   /\ val = [h \in H |-> <<>>] /\ cnt = [o \in O |-> 0]
   /\ rec = [h \in H |-> Null] /\ share = [h \in H |-> {h}]
-  /\ obs = [a |-> "init", arg |-> [kind |-> kind, n |-> NH, no |-> NO],
-            exp |-> [ret |-> "ok", out |-> AnyOut, vals |-> [h \in H |-> <<>>], refs |-> [o \in O |-> 1], fin |-> <<>>,
+  /\ obs = [a |-> "init", arg |-> [kind |-> kind, n |-> NH, no |-> NO, solo |-> Solo],
+            exp |-> [ret |-> "ok", out |-> AnyOut, vals |-> [h \in H |-> <<>>], refs |-> [o \in O |-> IF IsSolo(o) THEN 0 ELSE 1], fin |-> <<>>,
                      under |-> 0, leak |-> -1],
             mdl |-> [refs |-> [h \in H |-> 1], null |-> [h \in H |-> TRUE], nc |-> [h \in H |-> FALSE]]]
 
@@ -511,7 +521,7 @@ Next ==
        \/ \E o \in O : A /\ GClear(h, o)
        \* config items
        \/ \E p \in 1..NN, q \in 0..NN, o \in 0..NO :
-            /\ (Prune /\ h # 1) => (p = 1 /\ q = 0 /\ o = 1)
+            /\ (Prune /\ h # 1) => (p = 1 /\ q = 0 /\ o \in {1, NO})
             /\ CfgSet(h, p, q, o)
        \/ \E p \in 1..NN, q \in 0..NN : A /\ CfgQuery(h, p, q)
        \/ \E p \in 1..NN, q \in 0..NN, m \in 0..2 : A /\ CfgDel(h, p, q, m)
@@ -554,7 +564,7 @@ Balance == \A o \in O : cnt[o] = HeldBy(Reps, o)
 AllGone == (\A h \in H : IsNull(h)) => (\A o \in O : cnt[o] = 0)
 
 \* a registration token is alive in at most one command slot
-OneSlot == kind = "cmd" => \A o \in O : cnt[o] <= 1
+OneSlot == \A o \in O : (kind = "cmd" \/ IsSolo(o)) => cnt[o] <= 1
 
 Independent == [][\A h \in H : (obs'.a # "final" /\ h # obs'.arg.h) => val'[h] = val[h]]_vars
 RefuseFrame == [][obs'.exp.ret = "refused" => (val' = val /\ cnt' = cnt)]_vars
